@@ -82,7 +82,8 @@ def gen_function(world, contracts, externals, key):
         try:
             for k, (lab, ast, txt) in enumerate(c['ensures']):
                 V.add_obl('post', ev1.boolean(ast), rr, fn.get('pos', ''), label=lab or str(k), text=txt)
-            frame_obligations(V, X, c, ev0, H0, hp, rr, pkg)
+            if 'noframe' not in c['flags']:
+                frame_obligations(V, X, c, ev0, H0, hp, rr, pkg)
         except SpecError as e:
             raise OutOfSubset('contract of %s: %s' % (key, e))
     V.global_hyps += world.string_axioms()
